@@ -1507,6 +1507,38 @@ def run(ctx: Ctx) -> None:
     import random as pyrandom
 
     run_hist(ctx, pyrandom.Random(f"C04-hist-{ctx.seed}"))
+    # the global setting `sampler_probability_threshold` moved away from its import-time value (always restored):
+    # both backends must truncate at the CURRENT value (and agree with each other and with the exact model run
+    # at that value)
+    from lightworks.__settings import settings as lw_settings
+
+    trng = pyrandom.Random(f"C04-threshold-{ctx.seed}")
+    thr_default = lw_settings.sampler_probability_threshold
+    try:
+        for k in range(ctx.n(40, 500)):
+            if ctx.out_of_time():
+                break
+            thr = trng.choice([1e-6, 1e-4, 1e-3, 1e-2, 5e-2, 1e-12, 0.0])
+            case = gen_case(ctx, trng)
+            if case is None:
+                continue
+            lw_settings.sampler_probability_threshold = thr
+            case = {**case, "threshold": thr}
+            probs = run_case(ctx, case)
+            ctx.count(f"threshold:{thr:g}")
+            ctx.case(json.dumps(case), True)
+            if probs:
+                ctx.count("cases_with_problems")
+                oracle = [p for p in probs if p.startswith("oracle")]
+                rp = {"case": case, "problems": probs}
+                if oracle:
+                    ctx.violation(oracle[0] + f" [settings.sampler_probability_threshold = {thr:g}]", rp,
+                                  sig={"kind": "global-threshold"})
+                else:
+                    ctx.disagreement(probs[0] + f" [settings.sampler_probability_threshold = {thr:g}]", rp)
+            lw_settings.sampler_probability_threshold = thr_default
+    finally:
+        lw_settings.sampler_probability_threshold = thr_default
     brng = pyrandom.Random(f"C04-bunch-{ctx.seed}")
     for k in range(ctx.n(40, 600)):
         if ctx.out_of_time():
@@ -1561,6 +1593,10 @@ def run(ctx: Ctx) -> None:
 
 def replay(ctx: Ctx, path: str) -> None:
     data = json.load(open(path))["replay"]
+    if "threshold" in data["case"]:
+        from lightworks.__settings import settings as lw_settings
+
+        lw_settings.sampler_probability_threshold = data["case"]["threshold"]
     probs = run_case(ctx, data["case"])
     ctx.case("replay", True, sample=data["case"])
     for p in probs:
